@@ -416,6 +416,95 @@ func closedDuringChain(name, how string, laterRejects bool, bound int) *vx.Scena
 	return sc
 }
 
+// ---------------------------------------------------------------- a socket is nobody until every middleware has accepted it
+//
+// The first middleware joins the socket to a room (as authorisation code commonly does), the second one is slow
+// and then rejects (or accepts). WHILE the chain runs, another member is connected, the namespace is listed,
+// a broadcast goes to the room and one to the whole namespace. A socket that has not been admitted (yet) is not
+// listed and receives nothing: no event frame may reach its connection before the reply to its CONNECT, and none
+// at all if it is rejected.
+func pendingSocketInvisible(name string, rejects bool, bound int) *vx.Scenario {
+	sc := &vx.Scenario{Name: name, Bound: bound, Horizon: time.Minute}
+	sc.Body = func(e *vsched.Exec) func() vx.Result {
+		vsched.SetExploring(false)
+		srv := sio.NewServer(nil)
+		nsp := srv.Of("/chat")
+		gate := make(chan struct{})
+		var v vsched.Var
+		connHandlers := 0
+		nsp.Use(func(s sio.ServerSocket, h *sio.Handshake) any {
+			if strings.Contains(string(h.Auth), "pending") {
+				s.Join("members")
+			}
+			return nil
+		})
+		nsp.Use(func(s sio.ServerSocket, h *sio.Handshake) any {
+			if !strings.Contains(string(h.Auth), "pending") {
+				return nil
+			}
+			vsched.RecvStmt(gate) // slow (asks a database)
+			if rejects {
+				return errors.New("denied")
+			}
+			return nil
+		})
+		nsp.OnConnection(func(s sio.ServerSocket) {
+			s.Join("members")
+			v.Do(func() { connHandlers++ })
+		})
+		member := vrig.NewFakeEIO(srv, "member")
+		member.In(`0/chat,{"who":"member"}`)
+		vsched.Await(func() bool { return connHandlers == 1 })
+		pending := vrig.NewFakeEIO(srv, "pending")
+		pending.In(`0/chat,{"who":"pending"}`)
+		vrig.Settle(time.Second)
+		vsched.SetExploring(true)
+		// while the chain of 'pending' is still running
+		listed := len(nsp.Sockets())
+		fetched := len(nsp.FetchSockets())
+		inRoom := len(nsp.In("members").FetchSockets())
+		nsp.To("members").Emit("news", "members only")
+		nsp.Emit("all", "everybody")
+		vrig.Settle(time.Second)
+		during := append([]string{}, pending.Texts()...)
+		vsched.Close(gate)
+		vrig.Settle(time.Second)
+		return func() vx.Result {
+			var r vx.Result
+			r.Outcome = fmt.Sprintf("listed=%d fetched=%d inRoom=%d during=%d end=%v", listed, fetched, inRoom, len(during), pending.Texts())
+			ctx := fmt.Sprintf("while the second middleware of a connecting socket was still running (the first one had joined it to 'members'; the chain ends with rejects=%v): Namespace.Sockets() listed %d socket(s), FetchSockets() %d, In('members').FetchSockets() %d (one admitted member exists); frames to the connecting client at that time %q, at the end %q; frames to the member %q",
+				rejects, listed, fetched, inRoom, during, pending.Texts(), member.Texts())
+			if listed != 1 || fetched != 1 || inRoom != 1 {
+				r.Violate("admission: a socket whose middlewares are still running is listed in its namespace or room", "%s", ctx)
+			}
+			evBeforeReply, evEver := false, false
+			replied := false
+			for _, t := range pending.Texts() {
+				if strings.HasPrefix(t, "0/chat,") || strings.HasPrefix(t, "4/chat,") {
+					replied = true
+				}
+				if strings.HasPrefix(t, "2/chat,") {
+					evEver = true
+					if !replied {
+						evBeforeReply = true
+					}
+				}
+			}
+			if evBeforeReply || len(during) > 0 {
+				r.Violate("admission: events delivered to a socket before its middlewares have accepted it", "%s", ctx)
+			}
+			if rejects && evEver {
+				r.Violate("admission: events delivered to a socket that was rejected", "%s", ctx)
+			}
+			if !member.HasPrefix(`2/chat,["news"`) || !member.HasPrefix(`2/chat,["all"`) {
+				r.Violate("admission: an admitted member missed a broadcast while another socket was being admitted", "%s", ctx)
+			}
+			return r
+		}
+	}
+	return sc
+}
+
 // ---------------------------------------------------------------- concurrent set-up of one namespace
 //
 // Two goroutines of the application set a namespace up at the same time: one installs the middleware
@@ -788,6 +877,8 @@ func scenarios(tier string) []*vx.Scenario {
 		x.Shards = 4
 	}
 	s = append(s,
+		pendingSocketInvisible("pending-socket-is-invisible/chain-ends-with-rejection", true, 1),
+		pendingSocketInvisible("pending-socket-is-invisible/chain-ends-with-acceptance", false, 1),
 		concurrentNamespaceSetup("concurrent-namespace-setup/two-goroutines", "two-goroutines", b),
 		concurrentNamespaceSetup("concurrent-namespace-setup/client-creates-the-namespace", "client-creates", b))
 	return s
@@ -798,7 +889,7 @@ func main() {
 		Property: "C12",
 		Level:    "model_checking",
 		Rule: "admission: every chain of <= 3 middlewares over {accept, join+accept, reject(error), reject(string), reject(struct), join+reject} plus chains of 4-5 with one rejection at each position, on '/' and '/custom' (chains <= 3 also on a server with connection state recovery whose client presents no pid, an unknown pid, a pid without offset), each run on the real server under the scheduler (default schedule, virtual time) and judged against the statement; " +
-			"concurrent connects of 2-3 clients with a blocking middleware explored to the deviation bound; the connection ending (transport close / connect timeout) while an early middleware still runs and a later one rejects or accepts; two goroutines (or a goroutine and a client's CONNECT under AcceptAnyNamespace) setting one namespace up at once: Of(name) is one namespace and its middleware gates the next client; event middleware: chains of <= 2 x 6 handler signatures, and chains of <= 2 over {accept, reject, reject-iff-first-argument-is-bad} x 7 sets of 1-3 On/Once handlers on the same event x 7 sequences of 1-3 accepted/rejected occurrences (also of an unrelated event). distinct_nontrivial = chains containing >= 1 middleware (admission) + event cases with a non-empty chain + deviating schedules",
+			"concurrent connects of 2-3 clients with a blocking middleware explored to the deviation bound; the connection ending (transport close / connect timeout) while an early middleware still runs and a later one rejects or accepts; a socket whose chain is still running (joined to a room by its first middleware) is not listed and gets no broadcast before the verdict; two goroutines (or a goroutine and a client's CONNECT under AcceptAnyNamespace) setting one namespace up at once: Of(name) is one namespace and its middleware gates the next client; event middleware: chains of <= 2 x 6 handler signatures, and chains of <= 2 over {accept, reject, reject-iff-first-argument-is-bad} x 7 sets of 1-3 On/Once handlers on the same event x 7 sequences of 1-3 accepted/rejected occurrences (also of an unrelated event). distinct_nontrivial = chains containing >= 1 middleware (admission) + event cases with a non-empty chain + deviating schedules",
 		Scenarios: scenarios,
 		Budget: func(tier string) time.Duration {
 			if tier == "thorough" {
